@@ -573,7 +573,7 @@ def _request(rng):
             return req
 
 
-def _none_chain(rng):
+def _none_chain(rng, reduce_ok=True):
     """x -> y (None for some indices) -> z consumed ELEMENT-WISE (-> optional reduction): the values a consumer is
     handed for complete elements that hold None must not depend on the storage backend."""
     rank = rng.choice([1, 1, 2])
@@ -586,7 +586,7 @@ def _none_chain(rng):
         {"name": name, "outs": outs, "params": params, "spec": spec, "int": [], "bound": [], "defaults": []}, **kw)
     funcs = [f("f0", ["y0"], ["x0"], {"i": [["x0", axes]], "o": [["y0", axes]]}, nullable=True),
              f("f1", ["y1"], ["y0"], {"i": [["y0", axes]], "o": [["y1", axes]]}, nullable=rng.random() < 0.5)]
-    if rng.random() < 0.5:
+    if reduce_ok and rng.random() < 0.5:
         funcs.append(f("f2", ["y2"], ["y1", "y0"], None))
     return {"funcs": funcs, "internal": [],
             "inputs": [["x0", {"sh": sh, "d": [f"x0_{k}" for k in range(n)],
@@ -681,7 +681,7 @@ SWEEP_KINDS = ["dict", "dict", "file_array", "file_array", "mix", "mix", "shared
 
 def generate(rng, tier, mult):
     thorough = tier != "quick"
-    n_req = (26 if not thorough else 220) * mult
+    n_req = (26 if not thorough else 160) * mult
     k_random = 4 if not thorough else 10
     cases = []
     n_chain = 2 if not thorough else 8
@@ -689,7 +689,7 @@ def generate(rng, tier, mult):
     n_resume = 8 if not thorough else n_req    # requests that also get runs on an existing store
     for q in range(n_chain + n_req):
         chain = q < n_chain
-        req = _none_chain(rng) if chain else _request(rng)
+        req = _none_chain(rng, reduce_ok=(q % 2 == 1)) if chain else _request(rng)
         try:
             gens, sizes = _probe(req)
         except Exception:  # noqa: BLE001  (a request the sequential property C01 already reports)
@@ -768,10 +768,13 @@ def generate(rng, tier, mult):
                     rsizes = _probe_resume(req, gens, pre, fx)
                 except Exception:  # noqa: BLE001
                     continue
-                execs = ["ctl", "ctl", "thread"] + (["process"] if (thorough or chain) else [])
+                execs = ["ctl", "ctl", "thread"] + (["process", "process"] if (thorough or chain) else [])
                 for j, exec_ in enumerate(execs):
-                    r_ = run(_random_pis(rng, rsizes) if exec_ == "ctl" else [], rng.choice(sweep_kinds), exec_,
-                             rng.choice(["map", "async"]), seed=rng.randrange(10 ** 6))
+                    # a resumed process-pool run with shared_memory_dict: the storage must stay shared after load()
+                    kind = ("shared_memory_dict" if j == 3 else rng.choice(KINDS if exec_ == "process" else sweep_kinds))
+                    r_ = run(_random_pis(rng, rsizes) if exec_ == "ctl" else [], kind, exec_,
+                             rng.choice(["map", "async"]), seed=rng.randrange(10 ** 6),
+                             exec_form="single" if j == 3 else None)
                     r_["folder"] = True
                     if exec_ == "ctl" and j == 1:
                         eager = [sorted(rng.sample(range(n), rng.randint(0, n))) for n in rsizes]
@@ -882,6 +885,23 @@ def shrink(c):
         half = len(c["runs"]) // 2
         out.append(dict(c, runs=c["runs"][:half]))
         out.append(dict(c, runs=c["runs"][half:]))
+        return out
+    res = c.get("resume") or []
+    if res:
+        if c["runs"]:
+            return [dict(c, resume=[]), dict(c, runs=[])]
+        if len(res) > 1:
+            half = len(res) // 2
+            return [dict(c, resume=res[:half]), dict(c, resume=res[half:])]
+        s_ = res[0]
+        if s_["run"]["exec_form"] != "single":
+            out.append(dict(c, resume=[dict(s_, run=dict(s_["run"], exec_form="single"))]))
+        if s_["run"]["entry"] != "map":
+            out.append(dict(c, resume=[dict(s_, run=dict(s_["run"], entry="map"))]))
+        if len(s_["pre"]) > 1:
+            out.append(dict(c, resume=[dict(s_, pre=s_["pre"][:-1])]))
+        return out
+    if not c["runs"]:
         return out
     run = c["runs"][0]
     fs = req["funcs"]
